@@ -7,6 +7,9 @@ fn main() {
     let tier = tier_from_args();
     let prop = arg_value("--property");
     let ctx = LeafCtx::new();
+    if let Some(path) = arg_value("--replay") {
+        std::process::exit(replay(&ctx, &path));
+    }
     let reps: Vec<Report> = ["C01", "C02", "C03", "C04", "C05x"]
         .iter()
         .map(|p| Report::new(p, "model_checking", &tier))
@@ -19,4 +22,39 @@ fn main() {
         eprintln!("note: {} completeness/PI-order observations are reported by the C05 check", reps[4].n_violations());
     }
     std::process::exit(code);
+}
+
+/// Re-execute one recorded violation without the explorer: the assignment and the deviation
+/// script are read from the replay file, run through CX, judged by the reference predicate,
+/// and (if accepted) proven and verified with the real prover/verifier.
+fn replay(ctx: &LeafCtx, path: &str) -> i32 {
+    use vharness::cx::{Cx, Dev};
+    use vharness::leafref::{fields, LeafA};
+    let v: serde_json::Value = serde_json::from_str(&std::fs::read_to_string(path).expect("replay file")).expect("json");
+    let case = &v["case"];
+    let mut a = LeafA::zero();
+    for fd in fields() {
+        if let Some(arr) = case["assignment"][&fd.name].as_array() {
+            for (k, x) in arr.iter().enumerate() {
+                a.v[fd.off + k] = x.as_u64().unwrap();
+            }
+        }
+    }
+    let devs: Vec<Dev> = case["deviations"].as_array().map(|d| d.iter().map(|x| Dev { gen: x["gen"].as_u64().unwrap() as usize, alt: x["alt"].as_u64().unwrap() as usize }).collect()).unwrap_or_default();
+    let cx = Cx::new(&ctx.data);
+    let inputs = a.to_inputs(&ctx.targets);
+    let out = cx.run(&inputs, &devs, &[], false);
+    let pv = a.p_violations();
+    println!("circuit: {}", out.verdict.short());
+    println!("spec clauses violated by the statement: {pv:?}");
+    if out.verdict.accepted() {
+        println!("real prover + verifier on this witness: {:?}", cx.prove_and_verify(&inputs, &devs));
+    }
+    if out.verdict.accepted() && !pv.is_empty() {
+        println!("VIOLATION property={} replay={path}", v["property"].as_str().unwrap_or("?"));
+        1
+    } else {
+        println!("not reproduced on this tree");
+        0
+    }
 }
